@@ -308,6 +308,156 @@ def find_loops(text):
     return res
 
 
+def _match_arms(toks, o, c):
+    """Arms of the match block toks[o]='{' .. toks[c]='}': list of (pat_start, guard_if or None, arrow, body_start, body_end)
+    as token indices (body_end exclusive, without the trailing comma).  None if the block cannot be parsed."""
+    arms = []
+    i = o + 1
+    while i < c:
+        while i < c and toks[i].kind in rustlex.SIG:
+            i += 1
+        if i >= c:
+            break
+        ps = i
+        guard = None
+        arrow = None
+        while i < c:
+            t = toks[i]
+            if t.kind == 'punct' and t.text in '([{':
+                i = t.match + 1
+                continue
+            if t.kind == 'ident' and t.text == 'if' and guard is None:
+                guard = i
+            if t.kind == 'punct' and t.text == '=' and i + 1 < c and toks[i + 1].text == '>' and toks[i + 1].start == t.end:
+                arrow = i
+                break
+            i += 1
+        if arrow is None:
+            return None
+        i = arrow + 2
+        while i < c and toks[i].kind in rustlex.SIG:
+            i += 1
+        bs = i
+        if i < c and toks[i].kind == 'punct' and toks[i].text == '{':
+            be = toks[i].match + 1
+            i = be
+            # a block body may still be followed by method calls etc.: then it is an expression body
+            j = i
+            while j < c and toks[j].kind in rustlex.SIG:
+                j += 1
+            if j < c and not (toks[j].kind == 'punct' and toks[j].text == ',') and toks[j].text in ('.', '?'):
+                be = None
+        else:
+            be = None
+        if be is None:
+            while i < c:
+                t = toks[i]
+                if t.kind == 'punct' and t.text in '([{':
+                    i = t.match + 1
+                    continue
+                if t.kind == 'punct' and t.text == ',':
+                    break
+                i += 1
+            be = i
+        arms.append((ps, guard, arrow, bs, be))
+        i = be
+        while i < c and toks[i].kind in rustlex.SIG:
+            i += 1
+        if i < c and toks[i].kind == 'punct' and toks[i].text == ',':
+            i += 1
+    return arms
+
+
+def desugar_match_guards(text, log, qual):
+    """Rule R29: `match E { P if G => A, _ => B }` -> `match E { P => { if G { A } else { B } } _ => { B } }` (B duplicated
+    verbatim).  Only this two-arm shape, where the guarded arm is directly followed by the catch-all arm, is rewritten; the
+    installed Verus is imprecise for a guarded arm that mutates the matched place.  Returns (text, guards_left)."""
+    count = 0
+    while True:
+        toks = rustlex.lex(text)
+        done = True
+        left = 0
+        for i, t in enumerate(toks):
+            if not (t.kind == 'ident' and t.text == 'match'):
+                continue
+            k = i + 1
+            blk = None
+            while k < len(toks):
+                tt = toks[k]
+                if tt.kind == 'punct' and tt.text in '([':
+                    k = tt.match + 1
+                    continue
+                if tt.kind == 'punct' and tt.text == '{':
+                    blk = k
+                    break
+                if tt.kind == 'punct' and tt.text == ';':
+                    break
+                k += 1
+            if blk is None:
+                continue
+            arms = _match_arms(toks, blk, toks[blk].match)
+            if not arms:
+                continue
+            guarded = [a for a in arms if a[1] is not None]
+            if not guarded:
+                continue
+            if len(arms) == 2 and arms[0][1] is not None and arms[1][1] is None:
+                pat2 = ''.join(x.text for x in toks[arms[1][0]:arms[1][2]]).strip()
+                if pat2 == '_':
+                    (ps, g, ar, bs, be) = arms[0]
+                    pat = text[toks[ps].start:toks[g].start].rstrip()
+                    cond = text[toks[g + 1].start:toks[ar].start].strip()
+                    a_body = text[toks[bs].start:toks[be - 1].end]
+                    b_body = text[toks[arms[1][3]].start:toks[arms[1][4] - 1].end]
+                    new = f'{pat} => {{ if {cond} {{ {a_body} }} else {{ {b_body} }} }} _ => {{ {b_body} }} '
+                    text = text[:toks[ps].start] + new + text[toks[toks[blk].match].start:]
+                    count += 1
+                    done = False
+                    break
+            # the probed imprecision concerns a scrutinee that is a PLACE (`&self.inner`, `self.state`) mutated inside the
+            # guarded arm; a scrutinee that is a call result is a temporary and unaffected
+            scrut = text[toks[i + 1].start:toks[blk].start]
+            if '(' not in scrut:
+                left += len(guarded)
+        if done:
+            break
+    if count:
+        log.append(dict(rule='R29', fn=qual, what=f'{count} two-arm match(es) with a guard desugared to if/else inside the arm'))
+    return text, left
+
+
+def count_unannotated_closures(body):
+    """Closures whose result Verus knows nothing about: no `-> (name: T) ..` annotation after the parameter list."""
+    toks = rustlex.lex(body)
+    sig = [i for i, t in enumerate(toks) if t.kind not in rustlex.SIG]
+    n = 0
+    k = 0
+    while k < len(sig):
+        t = toks[sig[k]]
+        if t.kind == 'punct' and t.text == '|':
+            prev = toks[sig[k - 1]] if k > 0 else None
+            starts = prev is None or (prev.kind == 'punct' and prev.text in '(,={;:[>') or (prev.kind == 'ident' and prev.text in ('move', 'return', 'else'))
+            if starts:
+                # closing bar
+                j = k + 1
+                while j < len(sig) and not (toks[sig[j]].kind == 'punct' and toks[sig[j]].text == '|'):
+                    if toks[sig[j]].kind == 'punct' and toks[sig[j]].text in '([':
+                        # skip groups inside parameter patterns/types
+                        m = toks[sig[j]].match
+                        while j < len(sig) and sig[j] < m:
+                            j += 1
+                        continue
+                    j += 1
+                nxt = toks[sig[j + 1]] if j + 1 < len(sig) else None
+                nxt2 = toks[sig[j + 2]] if j + 2 < len(sig) else None
+                if not (nxt is not None and nxt.text == '-' and nxt2 is not None and nxt2.text == '>'):
+                    n += 1
+                k = j + 1
+                continue
+        k += 1
+    return n
+
+
 def _block_header(toks, b):
     h = b - 1
     header = []
@@ -657,6 +807,9 @@ def _finish_fn(d, log, sig, body, src_start, src_end, sha, dropped_attrs, emitte
         body = unfold_let_chains(body, log, d.qual)
     if d.opts.get('letelsecontinue'):
         body = nest_let_else_continue(body, log, d.qual)
+    guards_left = 0
+    if ' if ' in body and 'match' in body:
+        body, guards_left = desugar_match_guards(body, log, d.qual)
     if d.opts.get('bindtail'):
         # rule A4': the tail expression E of the body becomes `let <name> = E;` ... `<name>` so that exit obligations
         # (`//@atend`) can mention the result and the locals still in scope
@@ -770,7 +923,8 @@ def _finish_fn(d, log, sig, body, src_start, src_end, sha, dropped_attrs, emitte
     out = ('\n'.join(d.attrs) + '\n' if d.attrs else '') + sig.rstrip() + '\n' + (contract + '\n' if contract else '') + body
     meta = dict(src_file=d.relpath, src_start=src_start, src_end=src_end, sha256=sha,
                 qual=d.qual, props=d.opts.get('props', ''), dropped_attrs=dropped_attrs,
-                emitted_name=emitted_name)
+                emitted_name=emitted_name, match_guards_left=guards_left,
+                unannotated_closures=count_unannotated_closures(body))
     return out, meta
 
 
